@@ -27,6 +27,23 @@ pub struct Case14 {
     /// passes while scrut waits, the test cases after it must not run (and pass) any more
     #[serde(default)]
     pub deadline_wait: Option<u8>,
+    /// how slow commands are written: 0 `sleep N`, 1 SIGTERM ignored, 2 SIGTERM / SIGINT handled,
+    /// 3 background child + wait, 4 subshell
+    #[serde(default)]
+    pub cmd_style: u8,
+}
+
+fn command(sleep_s: u64, style: u8) -> String {
+    if sleep_s == 0 {
+        return "true".to_string();
+    }
+    match style {
+        1 => format!("trap '' TERM; sleep {sleep_s}"),
+        2 => format!("trap 'echo bye' TERM INT; sleep {sleep_s}"),
+        3 => format!("sleep {sleep_s} & wait"),
+        4 => format!("(sleep {sleep_s})"),
+        _ => format!("sleep {sleep_s}"),
+    }
 }
 
 /// a command that must be cut is at least this much longer than the limit ..
@@ -57,8 +74,9 @@ fn case_strategy() -> BoxedStrategy<Case14> {
         prop_oneof![2 => Just(None), 1 => Just(Some(0u64)), 2 => Just(Some(800u64)), 3 => Just(Some(3000u64)), 1 => Just(Some(1000u64))],
         any::<bool>(),
         vec((prop_oneof![3 => Just(None), 1 => Just(Some(300u64)), 2 => Just(Some(1200u64)), 3 => Just(Some(5000u64))], any::<u16>()), 1..4),
+        prop_oneof![3 => Just(0u8), 1 => Just(1u8), 1 => Just(2u8), 1 => Just(3u8), 1 => Just(4u8)],
     )
-        .prop_map(|(cram, doc_limit_ms, limit_via_cli, raw)| {
+        .prop_map(|(cram, doc_limit_ms, limit_via_cli, raw, cmd_style)| {
             // --timeout-seconds takes whole seconds
             let limit_via_cli = limit_via_cli && doc_limit_ms.map(|l| l % 1000 == 0).unwrap_or(false);
             let mut c = Case14 {
@@ -67,6 +85,7 @@ fn case_strategy() -> BoxedStrategy<Case14> {
                 limit_via_cli: limit_via_cli || (cram && doc_limit_ms.is_some()),
                 tests: raw.iter().map(|(t, _)| T14 { timeout_ms: if cram { None } else { *t }, sleep_s: 0 }).collect(),
                 deadline_wait: None,
+                cmd_style,
             };
             // deadline-crossing wait scenario (Markdown, finite document limit, a follower exists)
             if !cram && raw.len() >= 2 && raw[0].1 % 2 == 0 && doc_limit_ms.map(|l| l > 0).unwrap_or(false) {
@@ -161,7 +180,7 @@ fn check_case(c: &Case14) -> V {
     let mut args: Vec<String> = vec!["test".into(), "-r".into(), "json".into(), "--no-color".into()];
     if c.cram {
         for (i, t) in c.tests.iter().enumerate() {
-            doc.push_str(&format!("test {i}\n  $ {}\n\n", if t.sleep_s == 0 { "true".to_string() } else { format!("sleep {}", t.sleep_s) }));
+            doc.push_str(&format!("test {i}\n  $ {}\n\n", command(t.sleep_s, c.cmd_style)));
         }
     } else {
         if let (Some(l), false) = (c.doc_limit_ms, c.limit_via_cli) {
@@ -175,7 +194,7 @@ fn check_case(c: &Case14) -> V {
             };
             doc.push_str(&format!(
                 "# test {i}\n\n```scrut{cfg}\n$ {}\n```\n\n",
-                if t.sleep_s == 0 { "true".to_string() } else { format!("sleep {}", t.sleep_s) }
+                command(t.sleep_s, c.cmd_style)
             ));
         }
     }
@@ -203,6 +222,8 @@ fn check_case(c: &Case14) -> V {
         .label_if(abort_at.is_some(), "expects_timeout")
         .label_if(c.limit_via_cli, "limit_via_command_line")
         .label_if(c.deadline_wait.is_some(), "deadline_passes_during_wait")
+        .label_if(abort_at.is_some() && matches!(c.cmd_style, 1 | 2), "timed_out_command_traps_sigterm")
+        .label_if(abort_at.is_some() && matches!(c.cmd_style, 3 | 4), "timed_out_command_has_child_process")
         .label_if(
             !c.cram && c.tests.iter().enumerate().any(|(i, t)| t.timeout_ms.map(|p| c.doc_limit_ms.map(|l| l != 0 && l < p).unwrap_or(false)).unwrap_or(false) && i < 9),
             "document_limit_shorter_than_test_limit",
@@ -274,8 +295,8 @@ pub fn property() -> Property {
         ],
         parts: vec![Box::new(PropPart::<Case14> {
             name: "e2e",
-            rule: "1..3 tests; per-test timeout in {none, 300ms, 1.2s, 5s}; document limit in {default, 0, 800ms, 1s, 3s} from front-matter or --timeout-seconds; command duration in {immediate, 2s, 30s} chosen inside the margins; Markdown and Cram; `scrut test -r json` kinds, exit status and wall time vs. the effective-limit model min(per-test, remaining document time). also a scenario in which the document deadline passes during a `wait`. Non-trivial: both limits present, limit 0/absent with a slow command, or the wait scenario",
-            quick: 64,
+            rule: "1..3 tests; per-test timeout in {none, 300ms, 1.2s, 5s}; document limit in {default, 0, 800ms, 1s, 3s} from front-matter or --timeout-seconds; command duration in {immediate, 2s, 30s} chosen inside the margins, slow commands written as plain sleep / with SIGTERM ignored or handled / as background child + wait / in a subshell; Markdown and Cram; `scrut test -r json` kinds, exit status and wall time vs. the effective-limit model min(per-test, remaining document time). also a scenario in which the document deadline passes during a `wait`. Non-trivial: both limits present, limit 0/absent with a slow command, or the wait scenario",
+            quick: 128,
             thorough: 600,
             max_workers: 8,
             strategy: Box::new(|_| case_strategy()),
